@@ -3,7 +3,11 @@
 #ifndef VP_LMQ_SPEC_H
 #define VP_LMQ_SPEC_H
 
+#ifdef LMQ_MAXALLOC_OVERRIDE
+#define LMQ_MAXALLOC ((size_t) LMQ_MAXALLOC_OVERRIDE)
+#else
 #define LMQ_MAXALLOC ((size_t) 1 << 32)
+#endif
 
 #define LMQ_VIEW(q, k) ((q)->lmq_msgs[((q)->lmq_get + (k)) & (q)->lmq_mask])
 
